@@ -226,7 +226,10 @@ func calculateMaxCreation(params *datadoghqv1alpha1.ExtendedDaemonSetSpecStrateg
 		return 0, err
 	}
 	rollingUpdateDuration := now.Sub(rsStartTime)
-	nbSlowStartSlot := int(rollingUpdateDuration / params.SlowStartIntervalDuration.Duration)
+	nbSlowStartSlot := 0
+	if params.SlowStartIntervalDuration.Duration > 0 {
+		nbSlowStartSlot = int(rollingUpdateDuration / params.SlowStartIntervalDuration.Duration)
+	}
 	result := (1 + nbSlowStartSlot) * startValue
 	if result > int(*params.MaxParallelPodCreation) {
 		result = int(*params.MaxParallelPodCreation)
